@@ -3,7 +3,7 @@
     rand_chacha 0.9.0 / rand_core 0.9.5 / rand 0.9.5, [ChaCha8Rng::seed_from_u64]).
     [wf st]: every buffered word of the generator state is below 2^32; it holds of
     [seed_from_u64 seed] and is preserved by every sampler. *)
-From TU Require Import Base RNG_Model RNG_Proofs.
+From TU Require Import Base RNG_Model RNG_Proofs RNG_Check.
 Require Import Permutation.
 Local Open Scope N_scope.
 
@@ -135,6 +135,20 @@ Theorem weighted_sample_f_in_range : forall ws st i total st', wf st ->
   weighted_sample_f ws st = inr (i, total, st') -> (i < length ws)%nat /\ wf st'.
 Proof. exact weighted_sample_f_spec. Qed.
 Print Assumptions weighted_sample_f_in_range.
+
+(** ** the executable statements the correspondence evaluates on the implementation's results hold of the
+    model's own results: scripts whose usize weights / lengths are usizes, whose f64 weights are all positive
+    and that contain no Uniform<f64> call ([call_ok]; the two excluded cases are the unproved float facts),
+    and in which no rejection loop ran out of fuel *)
+Theorem check_calls_run : forall cs st outs st', wf st -> Forall call_ok cs -> run_calls cs st = (outs, st') ->
+  ~ In v_fuel outs -> check_calls cs outs = true /\ wf st'.
+Proof. exact check_calls_run_l. Qed.
+Print Assumptions check_calls_run.
+
+(** the permutation test of [check_calls] accepts every permutation of 0..m-1 *)
+Theorem is_perm_seq_complete : forall m l, Permutation l (seq 0 m) -> is_perm_seq m l = true.
+Proof. exact is_perm_seq_perm. Qed.
+Print Assumptions is_perm_seq_complete.
 
 (** ** Known answers, from the real crates *)
 Fixpoint take_u32 (n : nat) (st : rng) : list N :=
